@@ -119,7 +119,10 @@ def make_overlay(cid, part, workdir):
 def build_part(cid, part, workdir):
     ov = make_overlay(cid, part, workdir)
     binpath = os.path.join(workdir, part["name"] + ".test")
-    cmd = ["go", "test", "-c", "-overlay", ov, "-vet=off", "-o", binpath]
+    # never let `-mod=mod` touch /repo/go.mod: build against a private copy of go.mod/go.sum
+    for f in ("go.mod", "go.sum"):
+        shutil.copy(os.path.join(REPO, f), os.path.join(workdir, f))
+    cmd = ["go", "test", "-c", "-overlay", ov, "-vet=off", "-modfile=" + os.path.join(workdir, "go.mod"), "-o", binpath]
     if part.get("race"):
         cmd.append("-race")
     cmd.append("./" + part["pkg"])
